@@ -18,7 +18,11 @@ func addOverflow(db *Database, pl cellPayload) ([]byte, error) {
 	to := pl.Payload
 	overflow := pl.Overflow
 	for {
-		if overflow == 0 {
+		if overflow == 0 || int64(len(to)) >= pl.Length {
+			if int64(len(to)) < pl.Length {
+				// chain ended before the declared payload length
+				return nil, ErrCorrupted
+			}
 			return to[:pl.Length], nil
 		}
 		buf, err := db.page(overflow)
